@@ -128,7 +128,9 @@ def clause_tokens(cl):
     k = cl["kind"]
     pre = (K("CONSTRAINT") + I(cl["name"])) if cl.get("name") else []
     if k == "pk":
-        return pre + K("PRIMARY KEY") + paren(comma_list([I(c) for c in cl["cols"]]))
+        # optional per-column sort direction (a keyword: not part of the key's column list)
+        orders = cl.get("orders") or [None] * len(cl["cols"])
+        return pre + K("PRIMARY KEY") + paren(comma_list([I(c) + (K(o) if o else []) for c, o in zip(cl["cols"], orders)]))
     if k == "unique":
         return pre + K("UNIQUE") + paren(comma_list([I(c) for c in cl["cols"]]))
     if k == "check":
@@ -360,7 +362,10 @@ def add_clauses(rng, t, has_pk, max_clauses=5, position="after_first"):
             if has_pk:
                 continue
             has_pk = True
-            made.append({"kind": "pk", "cols": cs, "name": ("pk_%d" % cn) if kd == "cpk" else None})
+            cl = {"kind": "pk", "cols": cs, "name": ("pk_%d" % cn) if kd == "cpk" else None}
+            if rng.random() < 0.35:
+                cl["orders"] = [rng.choice([None, "ASC", "DESC"]) for _ in cs]
+            made.append(cl)
         elif kd in ("uq", "cuq"):
             made.append({"kind": "unique", "cols": cs, "name": ("uq_%d" % cn) if kd == "cuq" else None})
         elif kd in ("ck", "cck"):
